@@ -43,13 +43,13 @@ META = {
         "not_covered": COMMON_NOT + ["nested_delimiters (recursive + boxed: not within reach in this round)", "the recovered error's expected set (TagErr carries position only)"],
     },
     "C09": {
-        "bounds": {"quick": "whole parser: 3-operator table {prefix, infix, postfix} at N=3, {prefix(P), infix} P in {0,2} at N=4, arbitrary bytes; one operator step (infix / prefix / postfix) with SYMBOLIC power < 2^15, associativity and min_power, recursion stubbed",
-                   "thorough": "adds {infix left(1), infix left|right(2)} and {prefix, prefix, infix} at N=5"},
+        "bounds": {"quick": "whole parser: 2-operator tables {prefix(2), infix(left 1)} and {infix(left 1), postfix(3)} at N=3, arbitrary bytes; one operator step (infix / prefix / postfix) with SYMBOLIC power < 2^15, associativity and min_power, recursion stubbed",
+                   "thorough": "adds the 3-operator table {prefix, infix, postfix} at N=3, {prefix(P), infix} P in {0,2} at N=4, {infix left(1), infix left|right(2)} and {prefix, prefix, infix} at N=5"},
         "not_covered": ["tables of 4..6 operators, strings of length 8", "symbolic powers in the whole-parser query (unrolling of the recursive closure calls explodes: measured timeouts)", "Vec / boxed tables (tuple tables only)"],
     },
     "C10": {
-        "bounds": {"quick": "N=3; &[u8] vs Stream (with a pull-counting iterator), IterInput, Input::map, map_span, &[u8; 3], BoxedStream, &str (ASCII)", "thorough": "same"},
-        "not_covered": ["IoInput (BufReader + io::Error: measured timeout)", "Graphemes (unicode-segmentation tables: measured timeout)", "bytes::Bytes", "Stream inputs longer than one 512-token batch (515-token harness: timeout)", "with_context (different span type)"],
+        "bounds": {"quick": "N=3; &[u8] vs IterInput, Input::map, map_span, &[u8; 3], BoxedStream over a 3-token array, &str (ASCII); Stream over a pull-counting plain iterator: pulls <= |x| and acceptance", "thorough": "same"},
+        "not_covered": ["IoInput (BufReader + io::Error: measured timeout)", "Graphemes (unicode-segmentation tables: measured timeout)", "bytes::Bytes", "Stream inputs longer than one 512-token batch (515-token harness: timeout)", "outputs / spans / error positions of a Stream with SYMBOLIC length (out of memory at 30 GB; compared for a fixed-length BoxedStream)", "with_context (different span type)"],
     },
     "C11": {
         "bounds": {"quick": "N=3; memoized parser shared by two alternatives (boxed clone), memoized at different positions, under map_err / recover_with, left-recursive grammar",
@@ -57,11 +57,11 @@ META = {
         "not_covered": COMMON_NOT + ["hashbrown is replaced by an association-list stand-in with map semantics (the real SwissTable/foldhash code is not encodable)"],
     },
     "C12": {
-        "bounds": {"quick": "N=3 (nesting depth <= 1 plus the failing deeper attempts), recursive() and declare/define, clone/box/drop", "thorough": "same"},
-        "not_covered": ["stacker / nesting 10^6 deep (FFI / inline assembly; far outside any bound)", "define() twice (covered by the pinned test recursive_define_twice)", "Location::caller is stubbed in the declare/define harness"],
+        "bounds": {"quick": "N=3 (nesting depth <= 1 plus the failing deeper attempts), declare/define (self-recursive and mutually recursive), clone / boxed clone / drop", "thorough": "adds recursive() itself at N=2 (one nesting level)"},
+        "not_covered": ["stacker / nesting 10^6 deep (FFI / inline assembly; far outside any bound)", "define() twice (covered by the pinned test recursive_define_twice)", "Location::caller is stubbed in the declare/define harnesses", "recursive() beyond N=2 (its Rc<dyn Parser> handle defeats constant propagation: measured timeouts)"],
     },
     "C13": {
-        "bounds": {"quick": "histories of 2 parses with independent symbolic inputs of length <= 2 on one parser value; wrappers clone, &, Box, Rc, Arc, boxed(), Either; recursive + memoized parser reused", "thorough": "same"},
+        "bounds": {"quick": "histories of 2 parses with independent symbolic inputs of length <= 2 on one parser value; wrappers clone, &, Box, Rc, Arc, boxed(), Either; clone / boxed clone of a recursive parser after the drop of the original", "thorough": "adds a recursive + memoized parser reused after a first parse of length <= 1"},
         "not_covered": ["threads / schedules (Kani does not model concurrency)", "Cache", "histories longer than 2"],
     },
     "C14": {
